@@ -26,9 +26,9 @@ AUDITED_PARAM_MUTATIONS = {
 # attribute stores on structure/register objects outside __init__, each with the reason the receiver is per-compile
 STRUCT_ATTRS = {"_alias", "_dev_id", "_id", "_batch_mode", "_name", "_prefab_name", "_hash", "_is_ref_id"}
 AUDITED_STRUCT_STORES = {
-    ("generate_code", "CompilerPassGenerateCode.handle_call", "result._dev_id._id"): "result is the value of a constructor call made by this compilation (alias= given as str)",
-    ("generate_code", "CompilerPassGenerateCode.handle_assign", "value._alias"): "guarded by value._alias == True: only objects constructed with alias=True in this program, never a module singleton",
-    ("generate_code", "CompilerPassGenerateCode.handle_assign", "value._dev_id._id"): "same guard as value._alias (alias=True objects)",
+    ("generate_code", "CompilerPassGenerateCode.handle_call", "<v>._dev_id._id"): "result is the value of a constructor call made by this compilation (alias= given as str)",
+    ("generate_code", "CompilerPassGenerateCode.handle_assign", "<v>._alias"): "guarded by value._alias == True: only objects constructed with alias=True in this program, never a module singleton",
+    ("generate_code", "CompilerPassGenerateCode.handle_assign", "<v>._dev_id._id"): "same guard as value._alias (alias=True objects)",
 }
 
 
@@ -440,13 +440,13 @@ def r11cd(repo, chk):
                                 where = f"{m.path}:{c.lineno} in {q}"
                                 if isinstance(root, ast.Name) and is_fresh_expr(root, rd, n.id):
                                     chk.ok("R11.c", key + " [receiver is a fresh copy]", {"receiver": norm(root)})
-                                elif (mn, q, norm(t)) in AUDITED_STRUCT_STORES:
-                                    # re-prove the guard the audit relies on where it is syntactic
-                                    reason = AUDITED_STRUCT_STORES[(mn, q, norm(t))]
+                                elif isinstance(root, ast.Name) and (mn, q, "<v>" + norm(t)[len(root.id):]) in AUDITED_STRUCT_STORES:
+                                    # re-prove the guard the audit relies on where it is syntactic (the local's name does not matter)
+                                    reason = AUDITED_STRUCT_STORES[(mn, q, "<v>" + norm(t)[len(root.id):])]
                                     ok = True
                                     if "guarded by value._alias == True" in reason or "same guard" in reason:
                                         g = [(norm(tt), p) for tt, p in cfg.guards(n.id) if isinstance(tt, ast.expr)]
-                                        ok = ("value._alias == True", True) in g or ("value._alias is True", True) in g
+                                        ok = (f"{root.id}._alias == True", True) in g or (f"{root.id}._alias is True", True) in g
                                     chk.judge("R11.c", key + " [audited]", ok, f"audited store lost its guard ({reason})", {"reason": reason}, where)
                                 else:
                                     chk.bad("R11.c", key, f"{norm(t)} is assigned on an object that may be a module-level singleton (d0..db, stack, structure "
